@@ -10,7 +10,7 @@ Prints one JSON line with the outcome.
 """
 import json, os, subprocess, sys, shutil, time
 
-VERIF = os.path.dirname(os.path.dirname(os.path.abspath(__file__)))
+VERIF = os.environ.get("VERIF_SRC") or os.path.dirname(os.path.dirname(os.path.abspath(__file__)))
 PY = "/venv/bin/python"
 
 
